@@ -397,11 +397,48 @@ def check(ctx):
         else:
             raise AnalysisBroken('parse_san: the string compared with the castling spellings is neither str nor a recognised '
                                  'transformation of it (%s)' % canon(ps, init, inline=False))
+    # the castling prelude of parse_san, evaluated on each castling spelling the printer can produce (rules/streval.py): the
+    # spelling must come back as the castling move of the same wing (given that the move is in the generated list)
+    from rules.streval import StrEval, Returned
+    from rules.norm import Unknown as _Unk
+    se = StrEval(p, legal=True)
+    kcm, qcm = p.val('engine::KING_CASTLING_MOVE'), p.val('engine::QUEEN_CASTLING_MOVE')
     castle_lang = set()
-    for l in lits:
-        castle_lang.add(tuple(frozenset([c]) for c in l))
-        for m in strip:
-            castle_lang.add(tuple(frozenset([c]) for c in l + m))
+    wrong_wing = []
+    for form in sorted(printer, key=str):
+        if not all(len(c_) == 1 for c_ in form):
+            continue
+        text = ''.join(next(iter(c_)) for c_ in form)
+        if not text.startswith(('O-O', '0-0')):
+            continue
+        res = None
+        try:
+            fell = se.run(ps, kids(ps.body), {'str': text},
+                          stop=lambda st: any((x.get('callee') or {}).get('n', '').startswith('std::regex_match') for x in walk(st)))
+            res = 'falls through to the regex' if fell is False else 'no result'
+        except Returned as r_:
+            res = r_.value
+        except _Unk as u:
+            raise AnalysisBroken('parse_san: the castling prelude does something the string evaluator does not model (%s)' % u)
+        want = qcm if text.startswith(('O-O-O', '0-0-0')) else kcm
+        if res == want:
+            castle_lang.add(form)
+        elif res in (kcm, qcm):
+            wrong_wing.append(text)
+    # ... and a spelling that is not castling reaches the regex
+    for text in ('e4', 'Nf3', 'exd8=Q+', 'Rad1#'):
+        try:
+            fell = se.run(ps, kids(ps.body), {'str': text},
+                          stop=lambda st: any((x.get('callee') or {}).get('n', '').startswith('std::regex_match') for x in walk(st)))
+            if fell is not False:
+                wrong_wing.append(text + ' (never reaches the regex)')
+        except Returned as r_:
+            wrong_wing.append('%s (answered %s before the regex)' % (text, r_.value))
+        except _Unk as u:
+            raise AnalysisBroken('parse_san: the castling prelude does something the string evaluator does not model (%s)' % u)
+    ctx.ob('C17.R1.castling-wing', 'parse_san', not wrong_wing,
+           'a printed castling spelling is read back as castling on the same wing%s' % ('' if not wrong_wing else ' — not: %s' % wrong_wing),
+           site=ps.loc())
     ctx.info['printer_forms'] = len(printer)
     ctx.info['regex'] = rx
     ctx.info['castling_accepts'] = sorted(''.join(next(iter(c)) for c in t) for t in castle_lang)
@@ -487,6 +524,76 @@ def check(ctx):
             raise AnalysisBroken('parse_san gives up at %s under `%s` (%s): a rejection the inclusion argument does not cover'
                                  % (ps.loc(n), inner[0], inner[1]))
     ctx.floor('C17.R1.rejections', n_rej, 3, 'NO_MOVE returns in parse_san')
+    from rules.norm import cond_value as _cv, Unknown as _U2
+    npi = _N(ps)
+    # (a) an optional capture group is read only when it is not empty
+    n_opt = 0
+    for n in ps.all_nodes():
+        if (n.get('callee') or {}).get('n', '').endswith('::at') and 'match[' in npi.s(n):
+            m_ = re.search(r'match\[(\d)\]', npi.s(n))
+            grp_ = int(m_.group(1)) if m_ else None
+            if grp_ in (2, 3, 5):
+                n_opt += 1
+                facts_ = set()
+                for c_, t_ in guard_facts(ps, n):
+                    if t_:
+                        facts_ |= set(npi.conj(c_))
+                ctx.ob('C17.R1.optional-groups', 'match[%d]' % grp_, ('ge', 'match[%d].length()' % grp_, 1) in facts_,
+                       'the optional group %d of the SAN regex is read only when it matched something (an empty group has no first '
+                       'character)' % grp_, site=ps.loc(n))
+    for n in ps.all_nodes():
+        if n['k'] == 'IfStmt' and any(x.get('callee') and 'match[5]' in npi.s(x) for x in walk(kids(n)[1])) and \
+                any((x.get('ref') or {}).get('n') == 'promotion_piece_kind' for x in walk(kids(n)[1])):
+            n_opt += 1
+            ctx.ob('C17.R1.optional-groups', 'match[5]', ('ge', 'match[5].length()', 1) in set(npi.conj(kids(n)[0])),
+                   'the promotion group is decoded only when it matched something', site=ps.loc(n))
+    ctx.floor('C17.R1.optional-groups', n_opt, 3, 'reads of optional groups')
+    # (b) which promotion pieces are refused: pawn and king, nothing else, and only when a promotion was written
+    rej = [n for n in ps.all_nodes() if n['k'] == 'IfStmt' and
+           any((x.get('ref') or {}).get('n') == 'promotion_piece_kind' for x in walk(kids(n)[0])) and
+           any(r_['k'] == 'ReturnStmt' for r_ in walk(kids(n)[1]))]
+    bad_p = None
+    for n in rej:
+        for has in (False, True):
+            for kname in ('PAWN', 'KNIGHT', 'BISHOP', 'ROOK', 'QUEEN', 'KING'):
+                val = {('truthy', 'promotion_piece_kind.operator bool()', True): has, 'promotion_piece_kind.operator bool()': 1 if has else 0,
+                       'promotion_piece_kind.has_value()': 1 if has else 0, 'promotion_piece_kind': pk[kname],
+                       'promotion_piece_kind.value()': pk[kname], '*(promotion_piece_kind)': pk[kname]}
+                nv = _N(ps)
+                try:
+                    got = _cv(nv, kids(n)[0], val)
+                except _U2 as u:
+                    raise AnalysisBroken('parse_san: the promotion-piece test depends on `%s`' % u)
+                want = has and kname in ('PAWN', 'KING')
+                if got != want and bad_p is None:
+                    bad_p = '%s: %s' % ('promotion to %s' % kname if has else 'no promotion written', 'refused' if got else 'accepted')
+    ctx.ob('C17.R1.promotion-pieces', 'parse_san', bool(rej) and bad_p is None,
+           'a written promotion piece is refused exactly when it is a pawn or a king; a move without promotion is never refused here%s'
+           % ('' if bad_p is None else ' — ' + bad_p), site=ps.loc(rej[0]) if rej else ps.loc())
+    # (c) every generated move is looked at, (d) the answer is the single candidate
+    loops_ = [n for n in ps.all_nodes() if n['k'] == 'ForStmt' and any((x.get('ref') or {}).get('n') == 'matching_move_count' for x in walk(n))]
+    okl = len(loops_) == 1
+    if okl:
+        lp_ = loops_[0]
+        nk_ = _N(ps, inline=False)
+        iv_ = [x for x in walk(lp_['ch'][0]) if x['k'] == 'VarDecl'] if lp_['ch'][0] else []
+        inc_ = strip_casts(lp_['ch'][3]) if lp_['ch'][3] else None
+        okl = len(iv_) == 1 and kids(iv_[0]) and nk_.s(kids(iv_[0])[0]) == 'begin' and lp_['ch'][2] is not None and \
+            nk_.conj(lp_['ch'][2]) == frozenset({('ne',) + tuple(sorted([iv_[0]['name'], 'end']))}) and \
+            inc_ is not None and inc_['k'] == 'UnaryOperator' and inc_.get('op') == '++'
+        beg = [n for n in ps.all_nodes() if n['k'] == 'VarDecl' and n.get('name') == 'end' and kids(n)]
+        okl = okl and len(beg) == 1 and nk_.s(kids(beg[0])[0]).startswith('generate_moves(*(this),') and ',begin)' in nk_.s(kids(beg[0])[0])
+    ctx.ob('C17.R3.candidate-walk', 'parse_san', bool(okl),
+           'the candidate loop visits every move of the generated list (from begin up to the end generate_moves returned)', site=ps.loc())
+    asg = [n for n in ps.all_nodes() if n['k'] == 'BinaryOperator' and n.get('op') == '=' and
+           (strip_casts(kids(n)[0]).get('ref') or {}).get('n') == 'matching_move']
+    incs = [n for n in ps.all_nodes() if n['k'] == 'UnaryOperator' and n.get('op') == '++' and
+            (strip_casts(kids(n)[0]).get('ref') or {}).get('n') == 'matching_move_count']
+    oka = len(asg) == 1 and len(incs) == 1 and okl and _N(ps, inline=False, keep=('move',)).s(kids(asg[0])[1]) in ('move', '*(it)') and \
+        ps.parent(asg[0]) is not None and ps.cfg.position(asg[0]) is not None and ps.cfg.position(incs[0]) is not None and \
+        ps.cfg.position(asg[0])[0] == ps.cfg.position(incs[0])[0]
+    ctx.ob('C17.R3.candidate-kept', 'parse_san', bool(oka),
+           'a matching candidate is remembered and counted in the same step', site=ps.loc(asg[0]) if asg else ps.loc())
     cnt = [n for n in ps.all_nodes() if n['k'] == 'IfStmt' and canon(ps, kids(n)[0], inline=False).replace(' ', '') == '(matching_move_count!=1)']
     ctx.ob('C17.R3.unique-match', 'parse_san', len(cnt) == 1,
            'parse_san answers only when exactly one legal move matches', site=ps.loc())
@@ -512,15 +619,25 @@ def check(ctx):
            'printer and parser draw candidates from generate_moves for the side to move of the same position', site=ps.loc())
     # letter tables: piece_str[K] and promotion_str[K] are mapped back to K by parse_piece_kind
     ppk = [p.funcs[n['lambda']] for n in ps.all_nodes() if n.get('lambda') and n['lambda'] in p.funcs]
-    back = {}
-    for g in ppk:
-        for n in g.all_nodes():
-            if n['k'] == 'IfStmt':
-                ls = [x.get('s') for x in walk(kids(n)[0]) if x['k'] == 'StringLiteral']
-                rv = [const_of(strip_casts(kids(r)[0])) for r in walk(kids(n)[1]) if r['k'] == 'ReturnStmt']
-                for l in ls:
-                    if rv:
-                        back[l] = rv[0]
+    if len(ppk) != 1:
+        # the letter decoder may have become a named function: take the callee that is applied to match[1]
+        dec = [p.funcs.get((n.get('callee') or {}).get('fid')) for n in ps.all_nodes()
+               if n['k'] == 'VarDecl' and n.get('name') == 'moved_piece' for n in walk(n) if n.get('callee') and (n.get('callee') or {}).get('fid') in p.funcs]
+        ppk = [d for d in dec if d is not None and d.body is not None and d.file.startswith(p.root)][:1]
+    if len(ppk) != 1:
+        raise AnalysisBroken('parse_san: the function that decodes piece letters was not found')
+
+    class _Back(dict):
+        def get(self, key, default=None):
+            if key not in self:
+                try:
+                    self[key] = se.call(ppk[0], [key])
+                except _Unk as u:
+                    raise AnalysisBroken('parse_san: the piece-letter decoder does something the string evaluator does not model (%s)' % u)
+            return self[key]
+    back = _Back()
+    ctx.ob('C17.R3.pawn-letter', 'parse_piece_kind', back.get('') == pk['PAWN'],
+           'no piece letter means a pawn (decoded: %s)' % back.get(''), site=ps.loc())
     pstr, prom = string_table(swc, 'piece_str'), string_table(swc, 'promotion_str')
     ok = pstr is not None and prom is not None
     if ok:
